@@ -34,7 +34,7 @@ AllFlags == {"shadow", "sibling", "emptymap", "shadowmap", "deep", "reattach", "
              "empty_tok", "ooo", "dup", "dup_ooo", "ooo_deep", "ooo_deep2", "nested_scope", "scope_ooo",
              "scope_restores_span", "scope_exit_destroys", "drop_child_first", "drop_leaf_of_chain", "drop_parent_first",
              "drop_middle", "drop_attached", "unwind_to_small", "regrow", "ooo_after_regrow", "clear_key", "clear_span_key",
-             "clear_key_map"}
+             "clear_key_map", "stale_token_after_reuse"}
 Merge(a, fl) == [f \in AllFlags |-> a[f] + IF f \in fl THEN 1 ELSE 0]
 
 Ev == TraceLog[l]
@@ -45,10 +45,10 @@ TInit == /\ TLCSet(1, 0)
 
 TCfg == /\ Is("Cfg")
         /\ Ev.nt + 1 <= NT /\ Ev.nk <= NK
-        /\ nk' = Ev.nk /\ nexec' = nexec + 1 /\ agg' = Merge(agg, flags)
+        /\ nk' = Ev.nk /\ nexec' = nexec + 1 /\ agg' = Merge(agg, flags.f)
         /\ val' = <<>> /\ origin' = <<>> /\ stack' = [t \in Threads |-> <<>>]
         /\ toks' = {} /\ scopes' = {} /\ live' = {} /\ phase' = [t \in Threads |-> 0]
-        /\ last' = NoOp /\ flags' = {} /\ hist' = <<>>
+        /\ last' = NoOp /\ flags' = NoFlags /\ hist' = <<>>
 
 \* observations common to every event
 ObsOK(created) ==
@@ -113,6 +113,6 @@ TSpec == TInit /\ [][TNext]_tvars
 Progress == TLCSet(1, IF l > TLCGet(1) THEN l ELSE TLCGet(1))
 Accepted == IF TLCGet(1) = Len(TraceLog) + 1 THEN TRUE
             ELSE PrintT(<<"REJECTED_AT", TLCGet(1)>>) /\ FALSE
-Report == (l = Len(TraceLog) + 1) => /\ PrintT(<<"STATS", ToJson(Merge(agg, flags))>>)
+Report == (l = Len(TraceLog) + 1) => /\ PrintT(<<"STATS", ToJson(Merge(agg, flags.f))>>)
                                      /\ PrintT(<<"ACCEPTED", nexec>>)
 =============================================================================
